@@ -13,6 +13,7 @@ ValueError / IndexError / TypeError / UnicodeError / OverflowError / ... - withi
 from __future__ import annotations
 
 import io
+import json
 import random
 import signal
 
@@ -40,6 +41,35 @@ def hostile(rng: random.Random, maxtok=7) -> str:
     s = "".join(rng.choice(TOKENS) for _ in range(n))
     # the property's alphabet: latin-1 without control characters
     return "".join(c for c in s if (0x20 <= ord(c) < 0x7F) or (0xA0 <= ord(c) <= 0xFF))
+
+
+REP_PREFIX = ["", "", "", 'sid="', 'a="', '"', 'k="\\', "a; k=\"", "text/html;q=", "text/html; k*=utf-8''", "W/\"", "Basic ", "Digest realm=\"", "bytes=", "bytes 0-",
+              "(", "[", "[::", "<", "a=", "max-age=", "Thu, 01 Jan 2026 (", "1 Jan 2026 00:", "a, \"", "a;", "k*0*=", "default-src "]
+REP_SUFFIX = ["", "", "", "", '"', ";", ",", "x", "\\", " GMT", "=", ")", "]"]
+
+
+REP_LEAD = ["", "a=", "sid=", "k=", "a; k=", "a, b=", "W/", "Basic ", "Digest realm=", "text/html; k=", "bytes=", "x "]
+REP_ESC = ["\\", "\\\\", "\\a", "a\\", '\\"', "\\ ", "\\;", "\\,", "%5C"]
+
+
+def repetition(rng: random.Random) -> str:
+    """prefix + one token of the alphabet repeated 20-100 times + optional suffix. A third of the cases
+    put an escape-like token after an *unclosed* quote, a fifth put a run after an unclosed bracket or
+    comment: long runs there are what exposes super-linear scanners and regexes."""
+    n = rng.randrange(20, 101)
+    r = rng.random()
+    if r < 0.35:
+        s = rng.choice(REP_LEAD) + '"' + rng.choice(REP_ESC) * n + rng.choice(["", "", "", "x", ";", ","])
+    elif r < 0.55:
+        s = rng.choice(REP_LEAD) + rng.choice(["(", "[", "<", "[::", "((", "{"]) + rng.choice(TOKENS + REP_ESC) * n + rng.choice(["", "", ";", ","])
+    else:
+        tok = rng.choice(TOKENS) if rng.random() < 0.6 else rng.choice(REP_ESC + ['"', " ", ",", ";", "=", "*", "%", "(", "[", "a", "\xe9", "%2", "''"])
+        s = rng.choice(REP_PREFIX) + tok * n + rng.choice(REP_SUFFIX)
+    return "".join(c for c in s if (0x20 <= ord(c) < 0x7F) or (0xA0 <= ord(c) <= 0xFF))
+
+
+def hostile_any(rng: random.Random) -> str:
+    return repetition(rng) if rng.random() < 0.25 else hostile(rng)
 
 
 class Timeout(Exception):
@@ -383,6 +413,14 @@ class Hostile(Stream):
             ("accept_mime", "a/b;q=1.0000000000000002"), ("accept_mime", "a/b;q=\xb2"), ("accept_lang", "*"), ("accept_lang", "-"), ("accept_lang", "_x"), ("accept_charset", "\xe9"), ("accept_charset", "a b"),
             ("cc_request", "max-age=\xb2"), ("cc_request", "max-age= 5 "), ("cc_request", "max-age=1_0"), ("cc_request", "max-stale"), ("cc_response", "private=\"a, b\""), ("csp", ";; a b ;c"),
             ("date", ""), ("date", "0"), ("date", "Thu, 01 Jan 2026 00:00:00 GMT"), ("date", "1 Jan 26 0:0"), ("date", "Jan"), ("date", "1 Jan 2026 25:00"), ("date", "1 Jan 0 0:0"), ("date", "1 Jan 10000 0:0"),
+            ("cookie", 'sid="' + "\\" * 30), ("cookie", 'sid="' + "\\" * 90), ("cookie", 'a="' + "\\x" * 40), ("cookie", "a=" + '"' * 60), ("cookie", ";" * 80 + "="),
+            ("options", 'a; k="' + "\\" * 60), ("options", 'a; k="' + '\\"' * 50), ("options", "a;" + " " * 90 + "k"), ("options", "a; " + "k*0*=utf-8''%C3;" * 30),
+            ("list", '"' + "\\" * 70), ("list", ("a" * 30 + ",") * 30), ("dict", "a=" + '"' * 61), ("etags", '"' * 80), ("etags", 'W/"' + "a" * 80), ("etags", "," * 90),
+            ("etags", '"a' + " " * 90), ("etags", ("\xa0" * 40) + ","), ("range", "bytes=" + "0-1," * 60), ("range", "bytes=" + "-" * 90), ("content_range", "b " + " " * 80 + "/"),
+            ("date", "Thu, 01 Jan 2026 (" + "(" * 80), ("date", "(" * 100), ("date", "1 Jan 2026 " + "0:" * 60), ("date", "<" * 90), ("if_range", 'W/"' + "\\" * 80),
+            ("authorization", "Basic " + "=" * 99), ("authorization", "Basic " + "Zg" * 50 + "="), ("authorization", "Digest " + 'a="' + "\\" * 60), ("accept_mime", "a/b;" + "q=1;" * 60),
+            ("accept_mime", ("text/html;level=1," * 40)), ("accept_lang", "-" * 100), ("accept_charset", "utf-8," * 80), ("cc_request", 'max-age="' + "\\" * 50), ("csp", "a " * 100),
+            ("age", "9" * 100), ("age", "1_" * 50 + "1"), ("unquote", '"' + '\\"' * 50),
             ("date", "1 Jan 2026 0:0 +2500"), ("date", "\xe9"), ("if_range", '"x"'), ("if_range", "W/"), ("cookie", 'a="\\'), ("cookie", ";;="), ("unquote", '"'), ("unquote", '"\\"'),
         ]]
         + [{"k": "a", "attr": a, "env": {v: hs(s)}} for a, v, s in [
@@ -390,6 +428,9 @@ class Hostile(Stream):
             ("accept_mimetypes", "HTTP_ACCEPT", "text/html;*=x"), ("accept_charsets", "HTTP_ACCEPT_CHARSET", "utf-8;*=x"), ("accept_encodings", "HTTP_ACCEPT_ENCODING", "gzip;*=x"),
             ("accept_languages", "HTTP_ACCEPT_LANGUAGE", "en;*=x"), ("authorization", "HTTP_AUTHORIZATION", "Basic \xff\xfe"), ("cookies", "HTTP_COOKIE", "a=\xff"),
             ("url", "HTTP_HOST", "a:b"), ("base_url", "HTTP_HOST", "["), ("host_url", "HTTP_HOST", "a:99999999"), ("url_root", "HTTP_HOST", "[zz]"), ("root_url", "HTTP_HOST", "a]"),
+            ("cookies", "HTTP_COOKIE", 'sid="' + "\\" * 60), ("cookies", "HTTP_COOKIE", 'sid="' + "\\x" * 45), ("url", "HTTP_HOST", "[" * 80), ("host", "HTTP_HOST", ":" * 90),
+            ("url", "PATH_INFO", "/" + "%" * 90), ("args", "QUERY_STRING", "&" * 60 + "=" * 60), ("args", "QUERY_STRING", "%" * 99), ("form", "CONTENT_TYPE", "multipart/form-data; boundary=" + '"' * 70),
+            ("mimetype_params", "CONTENT_TYPE", 'a/b; k="' + "\\" * 70), ("user_agent", "HTTP_USER_AGENT", "(" * 100), ("if_modified_since", "HTTP_IF_MODIFIED_SINCE", "(" * 90),
             ("host", "HTTP_HOST", "a:b"), ("url", "HTTP_HOST", "\xe9:1"), ("url", "HTTP_HOST", "a b"), ("url", "PATH_INFO", "/\xff%zz"), ("path", "PATH_INFO", "\xe9"),
             ("accept_mimetypes", "HTTP_ACCEPT", "text/html;*0=x"), ("date", "HTTP_DATE", "1 Jan 99999999999999999999 0:0:0"),
             ("if_modified_since", "HTTP_IF_MODIFIED_SINCE", "1 Jan 2026 99999999999999999999999:0:0"), ("if_range", "HTTP_IF_RANGE", "Thu, 01 Jan 2026 00:00:00 +99999999999999999999"),
@@ -408,27 +449,26 @@ class Hostile(Stream):
         while True:
             r = rng.random()
             if r < 0.55:
-                yield {"k": "p", "name": rng.choice(PARSERS), "s": hs(hostile(rng))}
+                yield {"k": "p", "name": rng.choice(PARSERS), "s": hs(hostile_any(rng))}
             else:
                 attr = rng.choice(hot_attrs) if rng.random() < 0.7 else rng.choice(attrs)
                 env = {}
                 if attr in ATTR_VAR and rng.random() < 0.95:
-                    env[ATTR_VAR[attr]] = hs(hostile(rng))
+                    env[ATTR_VAR[attr]] = hs(hostile_any(rng))
                 for _ in range(rng.choice([0, 0, 1, 2, 4])):
                     env[rng.choice(CLIENT_VARS)] = hs(hostile(rng))
                 yield {"k": "a", "attr": attr, "env": env}
 
-    #: after this many hangs of one parser / attribute its further cases are not evaluated (they are
-    #: reported as hangs): a non-terminating mutation must not turn the check itself into a hang
-    MAX_HANGS = 2
-
+    #: after the first hang nothing else is evaluated (the remaining cases are marked skipped and
+    #: ignored by oracle and model comparison): a non-terminating change must not turn the check
+    #: itself into a hang, and the hanging input is the replay
     def real(self, case):
         from werkzeug.exceptions import HTTPException
 
-        hangs = self.__dict__.setdefault("_hangs", {})
-        label = self.label(case)
-        if hangs.get(label, 0) >= self.MAX_HANGS:
-            return "SKIPPED:hang-limit"  # not evaluated; the hangs already recorded are the violations
+        state = self.__dict__.setdefault("_hang_state", {"hung": False, "skipped": set()})
+        if state["hung"]:
+            state["skipped"].add(json.dumps(case, sort_keys=True))
+            return "SKIPPED:after-hang"
         try:
             if case["k"] == "p":
                 return timed(lambda: run_parser(case["name"], unhs(case["s"])))
@@ -436,10 +476,13 @@ class Hostile(Stream):
         except HTTPException as e:
             return f"HTTP:{e.code}"
         except Timeout:
-            hangs[label] = hangs.get(label, 0) + 1
+            state["hung"] = True
             raise
 
     def model_line(self, case):
+        st = self.__dict__.get("_hang_state")
+        if st and json.dumps(case, sort_keys=True) in st["skipped"]:
+            return None
         if case["k"] == "p":
             cmd = PARSER_CMD.get(case["name"])
             return None if cmd is None else line(cmd, case["s"])
@@ -512,41 +555,6 @@ class Hostile(Stream):
         return f"parser {case['name']}" if case["k"] == "p" else f"Request.{case['attr']}"
 
     def finding_key(self, case, what):
-        import werkzeug.http as http
-
-        if what.endswith("raised IndexError"):
-            # F07g: an Accept* value with a parameter whose name is empty once the RFC 2231 markers are removed
-            if case["k"] == "p" and case["name"].startswith("accept"):
-                value = unhs(case["s"])
-            elif case["k"] == "a" and case["attr"] in ACCEPT_ATTRS and ATTR_VAR[case["attr"]] in case["env"]:
-                value = unhs(case["env"][ATTR_VAR[case["attr"]]])
-            else:
-                return None
-            # exactly that family: some parameter is named by a bare continuation marker (`*0`, `*12*`)
-            # and none is named only `*` (the repaired F07e family must stay loud)
-            import re
-
-            names = [seg.partition("=")[0].strip().lower() for item in http.parse_list_header(value) for seg in item.split(";")[1:]]
-            if any(re.fullmatch(r"\*\d+\*?", n, re.ASCII) for n in names) and not any(n == "*" for n in names):
-                return "F07g"
-            return None
-        if what.endswith("raised OverflowError"):
-            # F07f: the date parser on a number too large for C
-            if case["k"] == "p" and case["name"] in ("date", "if_range"):
-                value = unhs(case["s"])
-            elif case["k"] == "a" and case["attr"] in DATE_ATTRS and ATTR_VAR[case["attr"]] in case["env"]:
-                value = unhs(case["env"][ATTR_VAR[case["attr"]]])
-            else:
-                return None
-            import email.utils
-
-            try:
-                email.utils.parsedate_to_datetime(value)
-            except OverflowError:
-                return "F07f"
-            except Exception:  # noqa: BLE001
-                return None
-            return None
         if what.endswith("raised ValueError") and case["k"] == "a" and case["attr"] in URL_ATTRS and "HTTP_HOST" in case["env"]:
             # F07d: caused by the Host value - the same request with a well-formed Host does not raise
             env = dict(case["env"])
@@ -607,8 +615,8 @@ CHECK = Check(
     assumptions=[
         "parse_date (email.utils), Request.url & co (urllib.parse.urlsplit, werkzeug.urls), cookies (C13's model), form/files/data (C01/C02/C10's models) are exercised on the real code only (oracle); the Lean theorems cover the header parsers modelled in Model/Http.lean",
         "the model's totality theorems quantify over all List Char; the correspondence validates the model on latin-1 text without control characters (the property's quantifier)",
-        "known findings F07d (Host -> urlsplit ValueError), F07f (parse_date OverflowError), F07g (Accept parameter named *<digits> -> IndexError)",
-        "a hang is detected by a per-case interval timer (3 s)",
+        "known finding F07d (Host -> urlsplit ValueError); F07a/b/c/e/f/g are repaired and kept as corpus regressions",
+        "a hang is detected by a per-case interval timer (3 s); the generator has a repetition family (prefix + one token x 20..100 + suffix) for super-linear scanners / regexes; after the first hang the stream stops evaluating",
     ],
     trusted_extra=["CPython str / re / urllib / base64 / int() semantics for the modelled primitives (validated by the stream, not verified)"],
     quick_budget=9000,
@@ -616,8 +624,8 @@ CHECK = Check(
 )
 
 MANIFEST = {
-    "level_text": "Machine-checked Lean 4 theorems `Safe (p s)` for all text s (no exception of any class escapes) for the exception-aware models of parse_dict_header, parse_options_header, parse_range_header, parse_content_range_header, parse_age, parse_cache_control_header + typed accessors, Authorization / WWWAuthenticate.from_header and (outside the F07g family) parse_accept_header, plus termination of the two while-loops; the models are tied to the code by a differential stream of hostile latin-1 header text, and the oracle (value or HTTPException, within a time bound) runs on every listed parser and every public Request attribute of the real code.",
-    "level_note": "Trusted: Lean kernel; extract.py; harness; CPython str/re/urllib/base64/int for modelled primitives. parse_date, urlsplit-based URL attributes, cookies and form parsing are oracle-only here. Known findings F07d, F07f, F07g.",
+    "level_text": "Machine-checked Lean 4 theorems `Safe (p s)` for all text s (no exception of any class escapes) for the exception-aware models of parse_dict_header, parse_options_header, parse_range_header, parse_content_range_header, parse_age, parse_cache_control_header + typed accessors, Authorization / WWWAuthenticate.from_header and parse_accept_header, plus termination of the two while-loops; the models are tied to the code by a differential stream of hostile latin-1 header text, and the oracle (value or HTTPException, within a time bound) runs on every listed parser and every public Request attribute of the real code.",
+    "level_note": "Trusted: Lean kernel; extract.py; harness; CPython str/re/urllib/base64/int for modelled primitives. parse_date, urlsplit-based URL attributes, cookies and form parsing are oracle-only here. Known finding F07d.",
     "technique": "Lean 4 proof (exception-aware model, invariants for unguarded indexing, fuel-irrelevance for loops) + model/code correspondence + hostile-input oracle",
     "design_ref": "DESIGN.md section 4, C07",
 }
